@@ -209,7 +209,10 @@ def checkAlign (text : List Int) (al w : Int) (od : Options Int) (out : List Int
     let outs := Spec.bareLines out sep od.noTrailing
     -- the empty text cannot represent "one empty line" under the default policy (C10's
     -- decomposition), so the count is compared only when the output is not empty
-    if !out.isEmpty ∧ ins.length != outs.length then "fail:C13 number of lines changed"
+    -- likewise an unterminated last line that consists of whitespace only may come out empty,
+    -- which the decomposition of the output cannot show as a line
+    let lastBlank := (toks (ins.getLastD [])).all tkA.ws
+    if !out.isEmpty ∧ !lastBlank ∧ ins.length != outs.length then "fail:C13 number of lines changed"
     else if !stableDom [text] [sep] then "ok"
     else
       let alignTok (l : List Int) : List Int :=
